@@ -1074,7 +1074,6 @@ def oracle(ctx, deep=False):
         if f:
             fails.append(f)
     n += _oracle_defaults(fails)
-    big = deep or ctx.thorough
 
     def sz(quick, mid, thorough):      # mid: failure search (deep) inside the quick tier, whole run < 1 min
         return thorough if ctx.thorough else (mid if deep else quick)
